@@ -1472,6 +1472,223 @@ theorem strtoLL_spec (w : Nat) (hw : 0 < w) (R : Reads) (t : List Byte) (base : 
       cases hneg : sg.1 <;> simp only [hneg] at hfit <;> simp only [Bool.false_eq_true, if_false, if_true] at hfit ⊢ <;>
         refine congrArg some (Prod.ext ?_ ?_) <;> simp only [] <;> (repeat' split) <;> omega
 
+/-! ### atol / atoi -/
+
+
+theorem isdigit_toNat : ∀ (b : Byte), isdigit (b.toNat : Int) = decide (Spec.digit b < 10) ∧
+    (Spec.digit b < 10 → (b.toNat : Int) - 48 = (Spec.digit b : Int)) := by decide +kernel
+
+theorem atolSkip_spec : ∀ (t : List Byte),
+    ∃ cb rest, cb :: rest = t.dropWhile Spec.isSpace ++ [0] ∧ atolSkip (t ++ [0]) = some ((cb.toNat : Int), rest) := by
+  intro t
+  induction t with
+  | nil =>
+    refine ⟨0, [], rfl, ?_⟩
+    simp only [List.nil_append, atolSkip]
+    have := isspace_rd true 0
+    simp only [rd, if_true] at this
+    rw [this]
+    rfl
+  | cons c t ih =>
+    have hsp := isspace_rd true c
+    simp only [rd, if_true] at hsp
+    by_cases hc : Spec.isSpace c = true
+    · obtain ⟨cb, rest, h1, h2⟩ := ih
+      refine ⟨cb, rest, ?_, ?_⟩
+      · simp only [List.dropWhile_cons, hc, if_true]; exact h1
+      · simp only [List.cons_append, atolSkip, hsp, hc, if_true, h2]
+    · have hc' : Spec.isSpace c = false := by cases h : Spec.isSpace c <;> simp_all
+      refine ⟨c, t ++ [0], ?_, ?_⟩
+      · simp only [List.dropWhile_cons, hc']; rfl
+      · simp only [List.cons_append, atolSkip, hsp, hc']
+        rfl
+
+theorem fold10_ge : ∀ (ds : List Nat) (N : Nat), N ≤ ds.foldl (fun a d => a * 10 + d) N := by
+  intro ds
+  induction ds with
+  | nil => intro N; exact Nat.le_refl _
+  | cons d ds ih =>
+    intro N
+    simp only [List.foldl_cons]
+    have := ih (N * 10 + d)
+    omega
+
+theorem atolLoop_spec (H : Nat) (hH : 0 < H) : ∀ (bs : List Byte) (stop : Byte) (tail : List Byte),
+    (∀ x ∈ bs, Spec.digit x < 10) → ¬ Spec.digit stop < 10 →
+    ∀ (cb : Byte) (rest : List Byte), cb :: rest = bs ++ stop :: tail →
+    ∀ (N : Nat), (bs.map Spec.digit).foldl (fun a d => a * 10 + d) N ≤ H →
+    atolLoop (-(H : Int)) ((H : Int) - 1) rest (cb.toNat : Int) (-(N : Int)) =
+      some (-(((bs.map Spec.digit).foldl (fun a d => a * 10 + d) N : Nat) : Int)) := by
+  intro bs
+  induction bs with
+  | nil =>
+    intro stop tail _ hstop cb rest heq N _
+    simp only [List.nil_append, List.cons.injEq] at heq
+    obtain ⟨h1, h2⟩ := heq
+    subst h1; subst h2
+    unfold atolLoop
+    rw [(isdigit_toNat cb).1]
+    simp [hstop]
+  | cons x bs ih =>
+    intro stop tail hbs hstop cb rest heq N hle
+    simp only [List.cons_append, List.cons.injEq] at heq
+    obtain ⟨h1, h2⟩ := heq
+    subst h1
+    have hx := hbs cb List.mem_cons_self
+    have hval := (isdigit_toNat cb).2 hx
+    simp only [List.map_cons, List.foldl_cons] at hle ⊢
+    have hge := fold10_ge (bs.map Spec.digit) (N * 10 + Spec.digit cb)
+    have hne : ∃ cb' rest', cb' :: rest' = bs ++ stop :: tail := by
+      cases bs with
+      | nil => exact ⟨stop, tail, rfl⟩
+      | cons y ys => exact ⟨y, ys ++ stop :: tail, rfl⟩
+    obtain ⟨cb', rest', heq'⟩ := hne
+    unfold atolLoop
+    rw [(isdigit_toNat cb).1]
+    simp only [hx, decide_true, if_true, hval]
+    rw [if_neg (by omega)]
+    rw [h2, ← heq']
+    simp only
+    have := ih stop tail (fun y hy => hbs y (List.mem_cons_of_mem _ hy)) hstop cb' rest' heq' (N * 10 + Spec.digit cb) hle
+    have e : (10 : Int) * -(N : Int) - (Spec.digit cb : Int) = -((N * 10 + Spec.digit cb : Nat) : Int) := by omega
+    rw [e]
+    exact this
+
+theorem atolSign_spec (t1 : List Byte) (cb : Byte) (rest : List Byte) (h : cb :: rest = t1 ++ [0]) :
+    ∃ cb2 rest2, cb2 :: rest2 = (Spec.sign t1).2.2 ++ [0] ∧
+      ((cb.toNat : Int) = 45 ↔ (Spec.sign t1).1 = true) ∧
+      atolSign (cb.toNat : Int) rest = some ((cb2.toNat : Int), rest2) := by
+  unfold atolSign
+  cases t1 with
+  | nil =>
+    simp only [List.nil_append, List.cons.injEq] at h
+    obtain ⟨h1, h2⟩ := h
+    subst h1; subst h2
+    exact ⟨0, [], rfl, by simp [Spec.sign], by simp⟩
+  | cons b r =>
+    simp only [List.cons_append, List.cons.injEq] at h
+    obtain ⟨h1, h2⟩ := h
+    subst h1; subst h2
+    have hne : ∃ cb2 rest2, cb2 :: rest2 = r ++ [0] := by
+      cases r with
+      | nil => exact ⟨0, [], rfl⟩
+      | cons y ys => exact ⟨y, ys ++ [0], rfl⟩
+    obtain ⟨cb2, rest2, heq⟩ := hne
+    by_cases h45 : cb.toNat = 45
+    · refine ⟨cb2, rest2, ?_, ?_, ?_⟩
+      · simp only [Spec.sign, h45, if_true]; exact heq
+      · simp [Spec.sign, h45]
+      · have : (cb.toNat : Int) = 45 := by omega
+        simp only [this, true_or, if_true, ← heq]
+    · by_cases h43 : cb.toNat = 43
+      · refine ⟨cb2, rest2, ?_, ?_, ?_⟩
+        · simp only [Spec.sign, h45, h43, if_true, if_false]; exact heq
+        · simp [Spec.sign, h43]
+        · have : (cb.toNat : Int) = 43 := by omega
+          simp only [this, or_true, if_true, ← heq]
+      · refine ⟨cb, r ++ [0], ?_, ?_, ?_⟩
+        · simp only [Spec.sign, h45, h43, if_false]; rfl
+        · simp only [Spec.sign, h45, h43, if_false]
+          constructor
+          · intro h; omega
+          · intro h; cases h
+        · have a : ¬ (cb.toNat : Int) = 45 := by omega
+          have b : ¬ (cb.toNat : Int) = 43 := by omega
+          simp only [a, b, or_self, if_false]
+
+theorem atol_spec (w : Nat) (hw : 0 < w) (t : List Byte)
+    (hrep : -((2 : Int) ^ (w - 1)) ≤ Spec.decimalValue t ∧ Spec.decimalValue t ≤ (2 : Int) ^ (w - 1) - 1) :
+    atol w (t ++ [0]) = some (Spec.decimalValue t) := by
+  obtain ⟨_, hH0⟩ := pow_split w hw
+  have hHi : (2 : Int) ^ (w - 1) = ((2 ^ (w - 1) : Nat) : Int) := by norm_cast
+  rw [hHi] at hrep
+  generalize hH : 2 ^ (w - 1) = H at *
+  obtain ⟨cb1, rest1, e1, h1⟩ := atolSkip_spec t
+  obtain ⟨cb2, rest2, e2, hsign, h2⟩ := atolSign_spec (t.dropWhile Spec.isSpace) cb1 rest1 e1
+  generalize hsg : Spec.sign (t.dropWhile Spec.isSpace) = sg at *
+  obtain ⟨stop, tail, hsplit, hstop⟩ := run_split 10 (by omega) sg.2.2
+  have hparse : Spec.parse t 10 =
+      if Spec.digits 10 sg.2.2 = [] then none
+      else some ⟨sg.1, Spec.ofDigits 10 (Spec.digits 10 sg.2.2),
+        (t.takeWhile Spec.isSpace).length + sg.2.1 + 0 + (Spec.digits 10 sg.2.2).length⟩ := by
+    unfold Spec.parse
+    simp [hsg, Spec.effBase]
+  have hval : Spec.decimalValue t =
+      if sg.1 = true then -((Spec.ofDigits 10 (Spec.digits 10 sg.2.2) : Nat) : Int)
+      else ((Spec.ofDigits 10 (Spec.digits 10 sg.2.2) : Nat) : Int) := by
+    unfold Spec.decimalValue
+    rw [hparse]
+    by_cases hds : Spec.digits 10 sg.2.2 = []
+    · simp [hds, Spec.ofDigits]
+    · simp [hds]
+  rw [hval] at hrep ⊢
+  have hmag : Spec.ofDigits 10 (Spec.digits 10 sg.2.2) ≤ H := by
+    cases h : sg.1 <;> simp only [h, Bool.false_eq_true, if_false, if_true] at hrep <;> omega
+  have hloop := atolLoop_spec H hH0 (sg.2.2.takeWhile (fun x => decide (Spec.digit x < 10))) stop tail
+    (by intro x hx; have := mem_takeWhile_sat hx; simpa using this) hstop cb2 rest2 (by rw [e2, hsplit]) 0
+    (by rw [← digits_eq]; exact hmag)
+  rw [← digits_eq] at hloop
+  have hof : List.foldl (fun a d => a * 10 + d) 0 (Spec.digits 10 sg.2.2) = Spec.ofDigits 10 (Spec.digits 10 sg.2.2) := rfl
+  rw [hof] at hloop
+  unfold atol
+  rw [h1]
+  simp only [hHi, hH]
+  rw [h2]
+  simp only
+  have hz : (-((0 : Nat) : Int)) = 0 := by simp
+  rw [hz] at hloop
+  rw [hloop]
+  simp only
+  generalize Spec.ofDigits 10 (Spec.digits 10 sg.2.2) = mag at *
+  cases h : sg.1
+  · have : ¬ (cb1.toNat : Int) = 45 := by rw [hsign, h]; simp
+    simp only [this, if_false, h, Bool.false_eq_true]
+    simp only [h, Bool.false_eq_true, if_false] at hrep
+    rw [if_neg (by omega)]
+    simp
+  · have : (cb1.toNat : Int) = 45 := by rw [hsign, h]
+    simp only [this, if_true]
+
+theorem asSigned_wrap (w : Nat) (hw : 0 < w) (v : Int)
+    (h : -((2 : Int) ^ (w - 1)) ≤ v ∧ v ≤ (2 : Int) ^ (w - 1) - 1) :
+    asSigned w ((v % 2 ^ w).toNat) = v := by
+  obtain ⟨hW2, hH0⟩ := pow_split w hw
+  have hHi : (2 : Int) ^ (w - 1) = ((2 ^ (w - 1) : Nat) : Int) := by norm_cast
+  have hWi : (2 : Int) ^ w = ((2 ^ w : Nat) : Int) := by norm_cast
+  rw [hHi] at h
+  unfold asSigned
+  rw [hWi]
+  generalize 2 ^ (w - 1) = H at *
+  generalize 2 ^ w = W at *
+  by_cases hv : 0 ≤ v
+  · have e : v % (W : Int) = v := Int.emod_eq_of_lt hv (by omega)
+    rw [e]
+    have : v.toNat < H := by omega
+    simp only [this, if_true]
+    omega
+  · have e : v % (W : Int) = v + W := by
+      have := Int.add_mul_emod_self_left v (W : Int) 1
+      rw [Int.mul_one] at this
+      rw [← this]
+      exact Int.emod_eq_of_lt (by omega) (by omega)
+    rw [e]
+    have : ¬ (v + (W : Int)).toNat < H := by omega
+    simp only [this, if_false]
+    omega
+
+theorem atoi_spec (wl wi : Nat) (hwi : 0 < wi) (hle : wi ≤ wl) (t : List Byte)
+    (hrep : -((2 : Int) ^ (wi - 1)) ≤ Spec.decimalValue t ∧ Spec.decimalValue t ≤ (2 : Int) ^ (wi - 1) - 1) :
+    atoi wl wi (t ++ [0]) = some (Spec.decimalValue t) := by
+  have hmono : (2 : Int) ^ (wi - 1) ≤ (2 : Int) ^ (wl - 1) := by
+    have := Nat.pow_le_pow_right (show 0 < 2 by omega) (show wi - 1 ≤ wl - 1 by omega)
+    have a : (2 : Int) ^ (wi - 1) = ((2 ^ (wi - 1) : Nat) : Int) := by norm_cast
+    have b : (2 : Int) ^ (wl - 1) = ((2 ^ (wl - 1) : Nat) : Int) := by norm_cast
+    rw [a, b]; omega
+  unfold atoi
+  rw [atol_spec wl (by omega) t ⟨by omega, by omega⟩]
+  simp only [Option.map_some]
+  rw [asSigned_wrap wi hwi _ hrep]
+
 end strto
 
 end Igris.C11
